@@ -41,6 +41,10 @@ func (c Collection) TryEqual(other Collection) (bool, bool) {
 		return false, true
 	}
 
+	// One unequal pair decides the comparison, wherever it stands; a pair without
+	// an answer (e.g. dates of different precision) leaves it open only if no
+	// other pair is unequal.
+	undefined := false
 	for i := range other {
 		okOne := IsPrimitive(c[i])
 		okTwo := IsPrimitive(other[i])
@@ -65,11 +69,15 @@ func (c Collection) TryEqual(other Collection) (bool, bool) {
 		primitiveTwo = Normalize(primitiveTwo, primitiveOne)
 		equal, ok := TryEqual(primitiveOne, primitiveTwo)
 		if !ok {
-			return false, false
+			undefined = true
+			continue
 		}
 		if !equal {
 			return false, true
 		}
+	}
+	if undefined {
+		return false, false
 	}
 	return true, true
 }
